@@ -38,7 +38,7 @@ CHECKS = {
     "C18": dict(
         cat="exploration", technique="reference registry model stepped beside config.livepoints + constructor/inverse round-trip monitor, bit-level comparison",
         text="2000 (50000 thorough) generated cases: identifier names incl. unicode/prefix collisions, 0/1/n points, NaN/inf/-0.0/subnormal/1e308 values, registry "
-             "histories of add/reset; all five constructors with their inverses, with and without non-sampling fields; zero-copy view semantics incl. a model whose "
+             "histories of add/reset (a fifth of the cases under non-default global options of the iteration field, which registering / resetting extra fields must leave alone); all five constructors with their inverses, with and without non-sampling fields; zero-copy view semantics incl. a model whose "
              "view dtype was cached before the registry changed.",
         note="the registry is process-global; each case starts from reset", ref="DESIGN.md §3 C18"),
     "C01": dict(
@@ -46,14 +46,14 @@ CHECKS = {
         text="Every replacement of every real run over a 32-cell (thorough: 43 cells x 6 seeds) configuration matrix is checked against a snapshot of the previous "
              "live set: removed point = previous minimum, all other rows byte-identical, recorded insertion index = slot occupied, new point strictly above, in bounds, "
              "finite prior, logL/logP equal to the raw user functions (8 ulp), ascending order, integral-state length; initial live set, finalise and an end-of-run trace "
-             "check (monotone discards, no point recorded twice). A third of the runs are stopped abruptly and resumed from the last checkpoint. Tie-prone model exercises "
-             "the strict inequality.",
+             "check (monotone discards, no point recorded twice). A third of the runs are stopped abruptly and resumed from the last checkpoint; two cells are killed right after a training that an empty pool triggered while a replacement was being drawn, with checkpoint_on_training. Tie-prone model exercises "
+             "the strict inequality; a uniform prior written without a bounds test leaves the bounds to the samplers' own checks.",
         note="decides only the executions produced (matrix listed in evidence); astropy/lal-dependent reparameterisations and CUDA not reached", ref="DESIGN.md §3 C01"),
     "C03": dict(
         cat="exploration", technique="post-iteration monitor on the real INS loop re-evaluating every stored density from the saved flows with an independent logit/Jacobian",
         text="After update_evidence in every iteration, after finalise and right after every resume, for both the training and the independent sample set: each "
              "log_q[i,j] is recomputed from flow j (own logit + Jacobian), mixture weights are recomputed from the data (fraction of samples per proposal), logQ, logW, "
-             "logU, unit-hypercube membership and logL are compared; 30 INS configurations incl. MAF/NSF, no reparameterisation, clip, strict/soft, replace-all, variable "
+             "logU, unit-hypercube membership and logL are compared; 50 INS configurations (incl. a prior without a bounds test with no reparameterisation, tie-prone and zero-likelihood-region models, likelihood offsets -2000 / +900) incl. MAF/NSF, no reparameterisation, clip, strict/soft, replace-all, variable "
              "draws, no i.i.d. set and 1-2 stop/resume cycles with and without saved tables (~2.8e6 density cells per quick run).",
         note="float32 tolerance 2e-4(1+|v|) on densities (flows run in float32); samples the map itself clamps are classified by a data predicate", ref="DESIGN.md §3 C03"),
     "C05": dict(
@@ -82,15 +82,15 @@ CHECKS = {
     "C14": dict(
         cat="exploration", technique="byte-digest comparison of whole runs executed in separate processes under varied hash seeds, pool sizes, user pools and chunk sizes",
         text="6 configurations (thorough: 12 x 3 seeds) of both samplers on an exactly-rounded likelihood are each executed as baseline, in other processes with four "
-             "different PYTHONHASHSEED values, twice in one process, with n_pool 1-4 and content-keyed delays in the workers, a user-supplied fork pool, chunk sizes 1/7/huge, "
-             "parallel prior and pool+chunks; SHA-256 of nested samples, weights, repr(logZ), insertion indices and the evaluation counter must equal the baseline's.",
+             "different PYTHONHASHSEED values, twice in one process (fresh, same model object, same settings objects), with n_pool 1-4 and content-keyed delays in the workers, a user-supplied fork pool, chunk sizes 1/7/huge, "
+             "parallel prior and pool+chunks; SHA-256 of nested samples, weights, repr(logZ), insertion indices and the evaluation counter must equal the baseline's; pool variants must have evaluated points outside the main process (observed, not assumed).",
         note="torch determinism assumed for pytorch_threads=1 (nessai default); only the fork start method; disable_vectorisation is outside the property's list and not compared",
         ref="DESIGN.md §3 C14"),
     "C17": dict(
         cat="exploration", technique="wrapper capturing the threshold method's own cut + clamping oracle from the property text on generated live sets; in-situ monitor on real INS runs",
         text="3000 (thorough 1e5) generated live sets (sizes 1-5000, six weight classes incl. -inf, tied likelihoods) x both methods with random parameters x min_samples, "
              "min_remove, max_samples, nlive, draw_constant on a real un-run sampler: the returned threshold must be the live likelihood at the clamped index; weighted_quantile "
-             "is checked for monotonicity, range and (equal weights) the order-statistic window; every iteration of real runs checks threshold membership and the "
+             "is checked for monotonicity, range, (equal weights) the order-statistic window, the pre-sorted path and invariance under constant log-weight offsets up to the size of real log-likelihoods (+-800, -3000, 1e4); every iteration of real runs checks threshold membership and the "
              "min_samples floor of each training set.",
         note="configurations that cannot all be honoured (min_remove >= size, max_samples < min_samples + nlive, all weights -inf) are excluded and counted", ref="DESIGN.md §3 C17"),
     "C07": dict(
@@ -103,9 +103,9 @@ CHECKS = {
         note="finite differences only at points clear of kinks and singular sets (counted per reason); the astropy-only distance converter is not reached", ref="DESIGN.md §3 C07"),
     "C11": dict(
         cat="fault_enumeration", technique="real process death at every enumerated file-system operation boundary / byte prefix (fork per crash point), fresh-process resume under the state-digest monitor",
-        text="For 4 (thorough 8) driver runs (both samplers, early checkpoint with no predecessor, late checkpoint with predecessor, keep-old on/off, weights saves) a "
+        text="For 5 (thorough 8) driver runs (both samplers, early checkpoint with no predecessor, late checkpoint with predecessor, keep-old on and off, weights saves) a "
              "recording pass lists the audited operations of the real safe_file_dump / save_weights; one forked child per crash point performs the real operation and dies "
-             "with os._exit before each operation, right after each operation has returned (e.g. between a rename and the close of a still-open file), after the last, and after each of 5 (40) byte prefixes of the serialised sampler / weights; each of the ~70 (~600) "
+             "with os._exit before each operation, right after each operation has returned (e.g. between a rename and the close of a still-open file), after the last, and after each of 5 (40) byte prefixes of the serialised sampler / weights; each of the ~100 (~600) "
              "resulting directories is resumed by a fresh process that must load a checkpoint digest-equal to the previous or the new one, continue sampling under the "
              "C01/C03/C05 monitors, or start afresh when none had completed.",
         note="process death only (no power loss); torch.save is modelled as a sequential writer (validated with strace-injected SIGKILL in the design phase)", ref="DESIGN.md §3 C11"),
@@ -113,33 +113,32 @@ CHECKS = {
         cat="exploration", technique="generic object-graph digest at pickling vs after restore inside the real run path + offline accounting over user-boundary event logs of kill/resume histories",
         text="24 (thorough 300) seeded histories: a run with a checkpoint schedule (every 1/7/50 iterations, every 0.2 s, on training with an iteration or time interval short enough for it to write) is killed by os._exit at the K-th "
              "likelihood point, resumed in a fresh process, killed again (1-3, thorough 1-5 kills), then completed; every checkpoint's full state digest (~300 fields) is "
-             "compared after restore with a reviewed allow-list; evaluation counts and timings are checked cumulatively against the call log; C01/C03/C05 monitors stay armed.",
+             "compared after restore with a reviewed allow-list; evaluation counts and timings are checked cumulatively against the call log (restored = checkpointed; never more accounted in a segment than its wall-clock time; the finishing segment within 0.8-1.02 of the wall time of its sampling loop without checkpoint writes); every fourth history checkpoints through a user checkpoint_callback and resumes through resume_data; custom resume_file names and an INS time schedule; C01/C03/C05 monitors stay armed.",
         note="flow weights are outside the property's list and only reloaded; fields allowed to differ are listed with reasons in vlib/digest.py and counted in the evidence",
         ref="DESIGN.md §3 C12"),
     "C13": dict(
         cat="fault_enumeration", technique="schedule enumeration: the real signal handler invoked from a trace hook before each source line of the sampling loop, fresh resume under conservation/count monitors; real signals to child processes",
-        text="~210 (thorough: every line x 4 phases, ~1500) delivered injections over 16 standard-sampler and 12 INS functions: FlowSampler.safe_exit(signum, frame) is called "
+        text="~230 (thorough: every line x 4 phases, ~2300) delivered injections over 18 standard-sampler and 14 INS functions (the initial live-point draw included): FlowSampler.safe_exit(signum, frame) is called "
              "before the chosen line at phases covering the first iteration, uninformed sampling, the switch/first training and late flow sampling; the SystemExit code, "
              "conservation of every live/discarded point at resume, count identities (samples / integral state / insertion indices), and the completed run under the "
-             "C01/C03/C05 monitors are checked; for INS the iteration-boundary checkpoint's hash must be unchanged by the handler. Real SIGTERM/SIGINT/SIGALRM are delivered "
-             "with os.kill to child processes and the process exit status is compared with the configured code. 15 (100) histories with 2-4 interruptions and resumes in a "
+             "C01/C03/C05 monitors are checked; for INS the iteration-boundary checkpoint's hash must be unchanged by the handler. Every one of SIGTERM/SIGINT/SIGALRM is raised for real, for each sampler, in child processes that keep nessai's own registered handlers (observer wrapped around signal.getsignal): at function heads, at the n-th entry of any nessai function (deterministic) and after a wall-clock delay (setitimer / timer thread) - 25 (thorough 264) deliveries; the process exit status must be the configured code and the checkpoint left is resumed under the same oracles. 15 (100) histories with 2-4 interruptions and resumes in a "
              "row (uninformed phase, across the proposal switch, flow phase, INS iteration heads) check point conservation at every resume.",
         note="line granularity on the main thread (CPython runs Python-level handlers at bytecode boundaries; a signal inside a C call is deferred to the next boundary); "
              "the three interruption states of the non-restartable replace step are listed known findings decided by state predicates", ref="DESIGN.md §3 C13"),
     "C20": dict(
         cat="exploration", technique="bounded-progress monitor: per-option real runs with logical step budgets (counters on population batches, INS draw batches, iterations, likelihood points) + C05 oracle on clean finishes",
-        text="Each of 130 standard and 64 importance-sampler option values (proposal classes, latent priors, radius options, reparameterisations, flow and training options, "
-             "reset/retrain policies, uninformed limits, INS thresholds/criteria/redraw/bootstrap/final-flow, posterior sampling methods, plot switches, parallelisation) runs "
+        text="Each of 143 standard and 71 importance-sampler option values (proposal classes, latent priors, radius options, reparameterisations, flow and training options, "
+             "reset/retrain policies, uninformed limits, draw/pool sizes down to one on an edge-peaked model, INS thresholds/criteria/redraw/bootstrap/final-flow, posterior sampling methods, plot switches, parallelisation) runs "
              "FlowSampler(...).run(save=True) under step budgets ~15-100x nominal; the outcome must be a configuration error before the first sampler likelihood call or a clean "
              "finish with finite results that satisfy the C05 oracle. Thorough adds 2 seeds and ~600 random compatible pair/triple rows on 2- and 3-parameter models.",
         note="liveness is restated as bounded progress; a wall-clock watchdog without budget overrun is inconclusive; astropy/lal-dependent options are not reachable", ref="DESIGN.md §3 C20"),
     "C06": dict(
         cat="exploration", technique="statistical monitor over many seeded real runs per configuration cell against closed-form evidences and posterior moments, fixed thresholds at total false-alarm 1e-9",
-        text="7 cells x 24 seeds (thorough 16 cells x 200 seeds) of both samplers on Gaussian-likelihood models with uniform and truncated-normal priors: finite evidence and "
+        text="15 cells x 24 seeds (thorough 28 cells x 200 seeds) of both samplers on Gaussian-likelihood models with uniform and truncated-normal priors: finite evidence and "
              "positive error, mean error within a Student-t bound plus the stated Jensen/discretisation allowance, variance ratio of errors to reported uncertainties within "
              "chi-square bounds (kappa 2), pooled posterior means and variances against the truncated-Gaussian closed form, insertion-index p-values; a failing cell is re-run "
              "with fresh seeds and reported only if it fails again. Cells include uninformed sampling disabled, analytic non-uniform priors, augmented proposal, MAF + logit + "
-             "shrinkage 't', INS default and strict/non-uniform.",
+             "shrinkage 't', accumulate-weights, INS default and strict/non-uniform, and a likelihood that is exactly zero on 82 % of the prior for both samplers (the standard sampler's bias there is a listed known finding).",
         note="cannot see a bias below ~q sd/sqrt(S) (reported per cell as 'resolution': ~0.27 in log Z at 24 seeds, ~0.07 at 200 seeds for the standard sampler; ~0.03 / 0.01 for INS)",
         ref="DESIGN.md §3 C06"),
     "C19": dict(
@@ -153,7 +152,7 @@ CHECKS = {
     "C08": dict(
         cat="exploration", technique="density self-consistency monitor on real flow, FlowModel and proposal objects against a direct composition of the glasflow transforms and closed-form base densities; float64 deciding",
         text="80 (thorough 900) seeded flow configurations (RealNVP/MAF/NSF x linear transforms x batch-norm/actnorm x masks x base distributions incl. LARS x nets x "
-             "volume-preserving x d 2/3/5 x float32/float64) in the weight states fresh, perturbed, trained 5 epochs, reset weights, reset permutations: generated vs evaluated "
+             "volume-preserving x d 2/3/5 x float32/float64) in the weight states fresh, perturbed, trained 5 epochs, reset weights (two thirds reached after one-direction-only use since the last training), reset permutations, full reset: generated vs evaluated "
              "log-density, inverse(forward(x)) = x, FlowModel wrappers (incl. supplied latent points and alternative latent distribution) vs direct evaluation, 2-d "
              "normalisation integral; 24 (120) FlowProposal / AugmentedFlowProposal cases (backward vs forward density and latent points, Jacobian pairing) and 6 (36) real INS "
              "runs (draw table = compute_meta_proposal_samples = incremental update_log_q = stored table).",
